@@ -959,8 +959,9 @@ theorem C09_never_silent_real_midstream {F} (ops : FloatOps F) (lookup : Int →
 /-- `FloatLaws`: what the REAL writer theorem assumes about the platform's conversions *for the value at hand* — explicit
     hypotheses, validated against libc by `checks/c09.py` (`fl g15`, `fl parse`, the writer grid), never axioms.
     * `shape` (L2): `%.15G` prints optional `-`, digits, optionally `.` digits, optionally `E` sign digits;
-    * `stable` (L1): reading the printed text gives the value back (true for every double that is the nearest double of a
-      decimal with at most 15 significant digits — `DBL_DIG`). -/
+    * `stable` (L1): reading the printed text gives the value back (for the 15-digit writer: expected of every double that is
+      the nearest double of a decimal with at most 15 significant digits — `DBL_DIG`, not proved here; for the repaired writer
+      `dblOpsRT` it is a theorem for every finite double: `dbl_fmtShortest_stable` + `C09_writer_seventeen_digits_convert_back`). -/
 structure FloatLaws {F} (ops : FloatOps F) (v : F) : Prop where
   shape : G15Shape (ops.fmtG15 v)
   stable : ∃ dec, parseFloatText (ops.fmtG15 v) = some dec ∧ ops.ofDecimal dec = some v
@@ -1006,8 +1007,8 @@ theorem C09_writer_real_conforming_model (bits : Nat) (hfin : (bits / Dbl.pow2 5
   have h := C09_write_real_conforming dblOps bits (dbl_fmtG15_shape bits hfin)
   ⟨h.1, h.1, h.2⟩
 
-/-- … and it reads back: for every finite double whose 15-digit print converts back to it (`stable`: the doubles nearest to a
-    decimal of at most 15 significant digits — DBL_DIG; validated against the platform on the writer grid) and that is not
+/-- … and it reads back: for every finite double whose 15-digit print converts back to it (`stable`: expected of the doubles nearest to a
+    decimal of at most 15 significant digits — DBL_DIG, not proved here; validated against the platform on the writer grid) and that is not
     the in-band null, the written token followed by any `Gap` and a delimiter is read to the same double with no error.
     Only `stable` remains a hypothesis; the shape law is discharged by the model. -/
 theorem C09_writer_real_reads_back_model (cfg : LexCfg) (lookup : Int → RefLookup) (nullable : Bool) (bits : Nat)
@@ -1429,6 +1430,32 @@ theorem C09_write_read_number {F} (ops : FloatOps F) (cfg : LexCfg) (lookup : In
   have hw : attrWrite ops .number (.real v) = attrWrite ops .real (.real v) := rfl
   rw [hw]
   exact C09_accept_number ops cfg lookup nullable _ sp rest d dec v (Or.inl hreal) (by rw [hden, hp]) hv hnn hsp hd
+
+/-- **NUMBER writer, reads back to the same value — every finite double, no numeric hypothesis** (the NUMBER counterpart of
+    `C09_writer_real_round_trips`; `FloatLaws` discharged by `dbl_fmtShortest_shape` and the 17-digit theorem) -/
+theorem C09_writer_number_round_trips (cfg : LexCfg) (lookup : Int → RefLookup) (nullable : Bool) (bits : Nat)
+    (hlt : bits < 2 ^ 64) (hfin : (bits / Dbl.pow2 52 % 2048 == 2047) = false)
+    (hnn : dblOpsRT.isRealNull bits = false)
+    (sp rest : List Byte) (d : Byte) (hsp : Gap cfg sp) (hd : d = 44 ∨ d = 41) :
+    attrRead dblOpsRT cfg lookup .number nullable (IStream.ofBytes (attrWrite dblOpsRT .number (.real bits) ++ sp ++ d :: rest)) =
+      .ok ⟨.null, .real bits, { left := sp.reverse ++ (attrWrite dblOpsRT .number (.real bits)).reverse, right := d :: rest }⟩ :=
+  C09_write_read_number dblOpsRT cfg lookup nullable bits
+    ⟨dbl_fmtShortest_shape bits hfin, dbl_fmtShortest_stable bits (C09_writer_seventeen_digits_convert_back bits hlt hfin)⟩ hnn
+    sp rest d hsp hd
+
+/-- … for the source as it is (regenerated `WriteReal` shape and scanner configuration) -/
+theorem C09_writer_number_round_trips_source (lookup : Int → RefLookup) (nullable : Bool) (bits : Nat)
+    (hlt : bits < 2 ^ 64) (hfin : (bits / Dbl.pow2 52 % 2048 == 2047) = false)
+    (hnn : (bits == Dbl.realNullBits) = false)
+    (sp rest : List Byte) (d : Byte) (hsp : Gap Generated.lexCfg sp) (hd : d = 44 ∨ d = 41) :
+    attrRead (dblOpsOf Generated.writeRealRoundTrips) Generated.lexCfg lookup .number nullable
+        (IStream.ofBytes (attrWrite (dblOpsOf Generated.writeRealRoundTrips) .number (.real bits) ++ sp ++ d :: rest)) =
+      .ok ⟨.null, .real bits,
+        { left := sp.reverse ++ (attrWrite (dblOpsOf Generated.writeRealRoundTrips) .number (.real bits)).reverse, right := d :: rest }⟩ := by
+  have hrt : Generated.writeRealRoundTrips = true := by decide
+  have hops : dblOpsOf Generated.writeRealRoundTrips = dblOpsRT := by rw [hrt]; rfl
+  rw [hops]
+  exact C09_writer_number_round_trips Generated.lexCfg lookup nullable bits hlt hfin hnn sp rest d hsp hd
 
 /-! ## entity reference -/
 
